@@ -10,7 +10,7 @@ and relates the two exactly).
 from vclib.core import X, Check, Unit
 
 CB = 'color_base.hpp'
-R = [('R8.mt', r'gil::at_c<mapping_transform<Layout, L2, (\d)>::value>\(c\)', r'c->v[MT_\1]', True),
+R = [('R8.mt', r'gil::at_c<mapping_transform<(Layout|L2), (Layout|L2), (\d)>::value>\(c\)', r'c->v[MT_\1_\2_\3]', True),
      ('R3.fields', r'\bv(\d)_\b', r'v[\1]', False)]
 X_ALL = [
     X('ctor3', CB, r'homogeneous_color_base\(homogeneous_color_base<E2, L2, 3> const& c\)\s*:', count=1, meminit=True, rules=R),
@@ -52,7 +52,7 @@ template <typename P, typename Color> void midx(const char* pname, const char* c
 template <typename P, int K> int semidx() { P p; return (int)(((const unsigned char*)&semantic_at_c<K>(p)) - (const unsigned char*)&p) / (int)sizeof(typename channel_type<P>::type); }
 template <typename P> typename std::enable_if<num_channels<P>::value == 3>::type probe_px(const char* n) { midx<P, red_t>(n, "red"); midx<P, green_t>(n, "green"); midx<P, blue_t>(n, "blue"); }
 template <typename P> typename std::enable_if<num_channels<P>::value == 4>::type probe_px(const char* n) { midx<P, red_t>(n, "red"); midx<P, green_t>(n, "green"); midx<P, blue_t>(n, "blue"); midx<P, alpha_t>(n, "alpha"); }
-template <typename D, typename S, int N> struct mt { static void run() { mt<D, S, N - 1>::run(); std::printf("#define MT_%d %d\n", N - 1, (int)detail::mapping_transform<typename D::layout_t, typename S::layout_t, N - 1>::value); } };
+template <typename D, typename S, int N> struct mt { static void run() { mt<D, S, N - 1>::run(); std::printf("#define MT_Layout_L2_%d %d\n#define MT_L2_Layout_%d %d\n#define MT_Layout_Layout_%d %d\n#define MT_L2_L2_%d %d\n", N - 1, (int)detail::mapping_transform<typename D::layout_t, typename S::layout_t, N - 1>::value, N - 1, (int)detail::mapping_transform<typename S::layout_t, typename D::layout_t, N - 1>::value, N - 1, N - 1, N - 1, N - 1); } };
 template <typename D, typename S> struct mt<D, S, 0> { static void run() {} };
 template <typename P, int N> struct sem { static void run() { sem<P, N - 1>::run(); std::printf("#define SEM%d %d\n", N - 1, semidx<P, N - 1>()); } };
 template <typename P> struct sem<P, 0> { static void run() {} };
@@ -89,6 +89,165 @@ for group in (L3, L4):
                               assumed=['at_c<K>(color_base) returns the K-th element in memory order (one-line accessors in color_base.hpp)',
                                        'pixel / packed_pixel / planar reference constructors forward to homogeneous_color_base']))
 # ---------------------------------------------------------------------------------------------------------------------------------------
+# All converting constructors (const& and l-value reference forms) for N = 2 .. 5, over user-style layouts of devicen_t<N> (GIL provides
+# a single layout for 2- and 5-channel colour spaces, but the constructors are generic in the layout): the K-th colour of dst equals the
+# K-th colour of src, with the memory position of the K-th colour read off the layout's channel_mapping_t (a type, independent of the
+# colour-base code).
+def _xn(n):
+    return [X('ctor%dc' % n, CB, r'homogeneous_color_base\(homogeneous_color_base<E2, L2, %d> const& c\)\s*:' % n, count=1, meminit=True, rules=R),
+            X('ctor%dm' % n, CB, r'homogeneous_color_base\(homogeneous_color_base<E2, L2, %d>& c\)\s*:' % n, count=1, meminit=True, rules=R)]
+CN = r"""
+typedef struct { uint16_t v[5]; } cb_t;
+#define PAIRED(K) ((K) >= NCH || self->v[MAPD_##K] == c->v[MAPS_##K])
+void ctor_const(cb_t* self, const cb_t* c)
+__CPROVER_requires(__CPROVER_is_fresh(self, sizeof(*self)) && __CPROVER_is_fresh(c, sizeof(*c)))
+__CPROVER_assigns(self->v)
+__CPROVER_ensures(PAIRED(0) && PAIRED(1) && PAIRED(2) && PAIRED(3) && PAIRED(4))   /* the K-th colour of dst equals the K-th colour of src */
+@@ctorc@@
+void ctor_mut(cb_t* self, cb_t* c)
+__CPROVER_requires(__CPROVER_is_fresh(self, sizeof(*self)) && __CPROVER_is_fresh(c, sizeof(*c)))
+__CPROVER_assigns(self->v)
+__CPROVER_ensures(PAIRED(0) && PAIRED(1) && PAIRED(2) && PAIRED(3) && PAIRED(4))
+@@ctorm@@
+#ifndef VERIF_NATIVE
+void h_const(void){ cb_t* d; cb_t* s; ctor_const(d, s); __CPROVER_assert(0, "VACUITY"); }
+void h_mut(void){ cb_t* d; cb_t* s; ctor_mut(d, s); __CPROVER_assert(0, "VACUITY"); }
+#endif
+"""
+PROBE_N_PRE = r"""
+template <typename P, int N> struct cmap { static void run(const char* pre) { cmap<P, N - 1>::run(pre);
+  std::printf("#define %s_%d %d\n", pre, N - 1, (int)boost::mp11::mp_at_c<typename P::layout_t::channel_mapping_t, N - 1>::value); } };
+template <typename P> struct cmap<P, 0> { static void run(const char*) {} };
+template <typename D, typename S, int N> struct mt { static void run() { mt<D, S, N - 1>::run(); std::printf("#define MT_Layout_L2_%d %d\n#define MT_L2_Layout_%d %d\n#define MT_Layout_Layout_%d %d\n#define MT_L2_L2_%d %d\n", N - 1, (int)detail::mapping_transform<typename D::layout_t, typename S::layout_t, N - 1>::value, N - 1, (int)detail::mapping_transform<typename S::layout_t, typename D::layout_t, N - 1>::value, N - 1, N - 1, N - 1, N - 1); } };
+template <typename D, typename S> struct mt<D, S, 0> { static void run() {} };
+"""
+PROBE_N = r"""
+  P_VAL("NCH", (int)num_channels<DSTP>::value);
+  cmap<SRCP, num_channels<SRCP>::value>::run("MAPS"); cmap<DSTP, num_channels<DSTP>::value>::run("MAPD"); mt<DSTP, SRCP, num_channels<DSTP>::value>::run();
+  for (int k = (int)num_channels<DSTP>::value; k < 5; k++) std::printf("#define MAPS_%d %d\n#define MAPD_%d %d\n", k, k, k, k);
+"""
+REPLAY_N = r"""
+#include <boost/gil.hpp>
+#include "vreplay.hpp"
+using namespace boost::gil;
+#include "inst.hpp"
+template <typename D, typename S, int K> struct chk { static bool run(D const& d, S const& s) { return chk<D, S, K - 1>::run(d, s) && semantic_at_c<K - 1>(d) == semantic_at_c<K - 1>(s); } };
+template <typename D, typename S> struct chk<D, S, 0> { static bool run(D const&, S const&) { return true; } };
+template <typename S, int K> struct fillp { static void run(S& s) { fillp<S, K - 1>::run(s); semantic_at_c<K - 1>(s) = (std::uint8_t)(11 * K); } };
+template <typename S> struct fillp<S, 0> { static void run(S&) {} };
+int main(int argc, char** argv){ vr::parse(argc, argv); constexpr int N = num_channels<DSTP>::value;
+  SRCP s; fillp<SRCP, N>::run(s);
+  DSTP d1(static_cast<SRCP const&>(s));              // const& form
+  DSTP d2(s);                                        // l-value form
+  DSTP d3; d3 = s;                                   // assignment
+  if (!chk<DSTP, SRCP, N>::run(d1, s)) REPRODUCED("Dst(const Src&) does not pair channel K of dst with channel K of src (semantic order)");
+  if (!chk<DSTP, SRCP, N>::run(d2, s)) REPRODUCED("Dst(Src&) does not pair channel K of dst with channel K of src (semantic order)");
+  if (!chk<DSTP, SRCP, N>::run(d3, s)) REPRODUCED("dst = src does not pair channel K of dst with channel K of src (semantic order)");
+  if (!(d1 == s) || !(d2 == s) || !(d3 == s)) REPRODUCED("dst == src is false after conversion");
+  detail::homogeneous_color_base<std::uint8_t&, typename DSTP::layout_t, N> r(s);      // reference proxy over the source's channels: the l-value form
+  if (!chk<decltype(r), SRCP, N>::run(r, s)) REPRODUCED("a reference colour base built from Src& (l-value constructor) does not refer to channel K of src at its position K (semantic order)");
+  NOT_REPRODUCED("converting construction pairs channels by semantic position"); }
+"""
+def _lay(n, perm):
+    return 'pixel<std::uint8_t, layout<typename devicen_t<%d>::type, boost::mp11::mp_list_c<int, %s>>>' % (n, ', '.join(str(k) for k in perm))
+PERMS = {2: [(0, 1), (1, 0)], 3: [(0, 1, 2), (2, 0, 1), (1, 2, 0)], 4: [(0, 1, 2, 3), (3, 0, 2, 1), (1, 3, 0, 2)], 5: [(0, 1, 2, 3, 4), (4, 2, 0, 1, 3), (1, 0, 4, 3, 2)]}
+for n, perms in PERMS.items():
+    insts = []
+    for a in perms:
+        for b in perms:
+            nm = 'n%d_%s_%s' % (n, ''.join(map(str, a)), ''.join(map(str, b)))
+            insts.append((nm, 'quick', {'T_SRCP': _lay(n, a), 'T_DSTP': _lay(n, b)}))
+    xs = _xn(n)
+    UNITS.append(Unit('ctorN.%d' % n, 'C05', CN.replace('@@ctorc@@', '@@ctor%dc@@' % n).replace('@@ctorm@@', '@@ctor%dm@@' % n), extracts=xs, replay=REPLAY_N,
+                      checks=[Check('const_ref', 'h_const', enforce='ctor_const'), Check('lvalue_ref', 'h_mut', enforce='ctor_mut')],
+                      insts=insts, probe_includes=['boost/gil.hpp'], probe=PROBE_N, probe_pre=PROBE_N_PRE,
+                      assumed=['gil::at_c<K>(color_base) forwards to color_base::at(integral_constant<int,K>) (one-line forwarder; the accessors themselves are unit at.N)']))
+# ---------------------------------------------------------------------------------------------------------------------------------------
+# The element accessors every other colour-base operation goes through: homogeneous_color_base<E,L,N>::at(integral_constant<int,K>)
+# (const and non-const, N = 1..5, 30 bodies) returns the K-th element in memory order.
+REPLAY_AT = r"""
+#include <boost/gil.hpp>
+#include "vreplay.hpp"
+using namespace boost::gil;
+using cb_t = detail::homogeneous_color_base<std::uint8_t, layout<typename devicen_t<@N@>::type>, @N@>;
+template <int K> struct chk { static int run(cb_t& c) { int bad = chk<K - 1>::run(c); cb_t const& cc = c;
+  if ((unsigned char const*)&c.at(std::integral_constant<int, K - 1>()) != (unsigned char const*)&c + (K - 1)) { std::printf("at(integral_constant<int,%d>) is at memory position %d\\n", K - 1, (int)((unsigned char const*)&c.at(std::integral_constant<int, K - 1>()) - (unsigned char const*)&c)); bad++; }
+  if ((unsigned char const*)&cc.at(std::integral_constant<int, K - 1>()) != (unsigned char const*)&c + (K - 1)) { std::printf("at(integral_constant<int,%d>) const is at memory position %d\\n", K - 1, (int)((unsigned char const*)&cc.at(std::integral_constant<int, K - 1>()) - (unsigned char const*)&c)); bad++; }
+  return bad; } };
+template <> struct chk<0> { static int run(cb_t&) { return 0; } };
+int main(int argc, char** argv){ vr::parse(argc, argv); cb_t c; int bad = chk<@N@>::run(c);
+  if (bad) REPRODUCED("%d element accessor(s) of the @N@-element colour base return an element at another memory position", bad);
+  NOT_REPRODUCED("every accessor returns the element at its memory position"); }
+"""
+RA = [('R3.at', r'return v(\d)_;', r'return &self->v[\1];', True)]
+for n in range(1, 6):
+    W = r'struct homogeneous_color_base<Element, Layout, %d>\s*\{' % n
+    xs, body, calls = [], 'typedef struct { uint16_t v[5]; } cb_t;\n', ''
+    for k in range(n):
+        xs.append(X('at%d_%d' % (n, k), CB, r'auto at\(std::integral_constant<int, %d>\)\s*->[^{;]*' % k, count=1, within=W, rules=RA))
+        xs.append(X('at%d_%dc' % (n, k), CB, r'auto at\(std::integral_constant<int, %d>\) const\s*->[^{;]*' % k, count=1, within=W, rules=RA))
+        body += 'uint16_t* at_%d(cb_t* self)\n@@at%d_%d@@\nconst uint16_t* at_%dc(const cb_t* self)\n@@at%d_%dc@@\n' % (k, n, k, k, n, k)
+        calls += '  __CPROVER_assert(at_%d(&s) == &s.v[%d], "at(integral_constant<int,%d>) is the element at memory position %d");\n' % (k, k, k, k)
+        calls += '  __CPROVER_assert(at_%dc(&s) == &s.v[%d], "at(integral_constant<int,%d>) const is the element at memory position %d");\n' % (k, k, k, k)
+    body += '#ifndef VERIF_NATIVE\nvoid h_at(void){ cb_t s;\n' + calls + '  __CPROVER_assert(0, "VACUITY"); }\n#endif\n'
+    UNITS.append(Unit('at.%d' % n, 'C05', body, extracts=xs, checks=[Check('at', 'h_at', engine='D')], replay=REPLAY_AT.replace('@N@', str(n))))
+# ---------------------------------------------------------------------------------------------------------------------------------------
+# Planar pixels: the colour base of channel POINTERS built from a pixel (planar_pixel_iterator(P*)), and the colour base of channel
+# REFERENCES built from such pointers plus a byte offset (planar_pixel_reference(ptr, diff), behind planar operator[] / operator*).
+# Planar iterators / references always carry the identity layout, so position K must address the K-th COLOUR of the source pixel
+# (memory position channel_mapping[K] of the source layout), shifted by diff bytes for the reference.
+RP = [('R8.sem', r'&semantic_at_c<(\d)>\(\*p\)', r'(uintptr_t)&p->v[MAPS_\1]', False),
+      ('R8.adv', r'\*memunit_advanced\(semantic_at_c<(\d)>\(ptr\), diff\)', r'(ptr->v[\1] + (uintptr_t)diff)', False),
+      ('R3.fields', r'\bv(\d)_\b', r'v[\1]', False)]
+CP = r"""
+typedef struct { uint16_t v[5]; } cb_t;          /* the source pixel (any layout) */
+typedef struct { uintptr_t v[5]; } pcb_t;        /* colour base of channel pointers / references (identity layout), addresses as integers */
+#define PTR_OK(K) ((K) >= NCH || self->v[K] == (uintptr_t)&p->v[MAPS_##K])
+#define REF_OK(K) ((K) >= NCH || self->v[K] == ptr->v[K] + (uintptr_t)diff)
+void ctor_from_pixel(pcb_t* self, cb_t* p, _Bool unused)
+__CPROVER_requires(__CPROVER_is_fresh(self, sizeof(*self)) && __CPROVER_is_fresh(p, sizeof(*p)))
+__CPROVER_assigns(self->v)
+__CPROVER_ensures(PTR_OK(0) && PTR_OK(1) && PTR_OK(2) && PTR_OK(3) && PTR_OK(4))   /* pointer K addresses the K-th colour of the pixel */
+@@pix@@
+void ctor_offset(pcb_t* self, const pcb_t* ptr, ptrdiff_t diff)
+__CPROVER_requires(__CPROVER_is_fresh(self, sizeof(*self)) && __CPROVER_is_fresh(ptr, sizeof(*ptr)) && diff >= -4096 && diff <= 4096)
+__CPROVER_assigns(self->v)
+__CPROVER_ensures(REF_OK(0) && REF_OK(1) && REF_OK(2) && REF_OK(3) && REF_OK(4))   /* reference K is channel pointer K moved by diff bytes */
+@@off@@
+#ifndef VERIF_NATIVE
+void h_pix(void){ pcb_t* d; cb_t* s; ctor_from_pixel(d, s, 1); __CPROVER_assert(0, "VACUITY"); }
+void h_off(void){ pcb_t* d; pcb_t* s; ptrdiff_t diff; ctor_offset(d, s, diff); __CPROVER_assert(0, "VACUITY"); }
+#endif
+"""
+REPLAY_P = r"""
+#include <boost/gil.hpp>
+#include "vreplay.hpp"
+using namespace boost::gil;
+#include "inst.hpp"
+constexpr int N = num_channels<SRCP>::value;
+using cs_t = typename devicen_t<N>::type;
+using pit_t = planar_pixel_iterator<std::uint8_t*, cs_t>;
+template <int K> struct chk { static int run(pit_t const& it, SRCP* px, std::ptrdiff_t diff) { int bad = chk<K - 1>::run(it, px, diff);
+  if (semantic_at_c<K - 1>(it) != &semantic_at_c<K - 1>(px[0])) { std::printf("planar_pixel_iterator(P*): channel pointer %d does not address colour %d of the pixel\\n", K - 1, K - 1); bad++; }
+  planar_pixel_reference<std::uint8_t&, cs_t> r(it, diff);
+  if (&semantic_at_c<K - 1>(r) != &semantic_at_c<K - 1>(px[0]) + diff) { std::printf("planar_pixel_reference(ptr, %d): channel reference %d is not channel pointer %d moved by %d bytes\\n", (int)diff, K - 1, K - 1, (int)diff); bad++; }
+  if (&semantic_at_c<K - 1>(it[1]) != &semantic_at_c<K - 1>(px[0]) + 1) { std::printf("planar iterator operator[](1): channel %d\\n", K - 1); bad++; }
+  return bad; } };
+template <> struct chk<0> { static int run(pit_t const&, SRCP*, std::ptrdiff_t) { return 0; } };
+int main(int argc, char** argv){ vr::parse(argc, argv); SRCP px[4]; pit_t it(&px[1]); int bad = 0;
+  for (std::ptrdiff_t diff = -(std::ptrdiff_t)sizeof(SRCP); diff <= (std::ptrdiff_t)sizeof(SRCP); diff++) bad += chk<N>::run(it, &px[1], diff);
+  if (bad) REPRODUCED("%d planar channel pointer / reference(s) address another channel", bad);
+  NOT_REPRODUCED("planar pointers / references address the pixel's colours in semantic order"); }
+"""
+for n, perms in PERMS.items():
+    xs = [X('pix', CB, r'homogeneous_color_base\(P\s*\* p, bool\)\s*:', count=1, meminit=True, rules=RP, within=r'struct homogeneous_color_base<Element, Layout, %d>\s*\{' % n),
+          X('off', CB, r'homogeneous_color_base\(Ptr const& ptr, std::ptrdiff_t diff\)\s*:', count=1, meminit=True, rules=RP, within=r'struct homogeneous_color_base<Element, Layout, %d>\s*\{' % n)]
+    insts = [('n%d_%s' % (n, ''.join(map(str, a))), 'quick', {'T_SRCP': _lay(n, a), 'T_DSTP': _lay(n, a)}) for a in perms]
+    UNITS.append(Unit('planar_ctor.%d' % n, 'C05', CP, extracts=xs, replay=REPLAY_P,
+                      checks=[Check('from_pixel', 'h_pix', enforce='ctor_from_pixel'), Check('offset', 'h_off', enforce='ctor_offset')],
+                      insts=insts, probe_includes=['boost/gil.hpp'], probe=PROBE_N, probe_pre=PROBE_N_PRE,
+                      assumed=['semantic_at_c<K> of an identity-layout colour base is at_c<K> (probe: channel_mapping_t of layout<ColorSpace>)']))
+# ---------------------------------------------------------------------------------------------------------------------------------------
 # packed pixels (rgb565 / bgr565 and 4-4-4 variants): construction, assignment and equality across layouts pair channels by colour.
 # Complete native enumeration of all 2^16 bit-field contents on the real code (reported as a bounded stand-in: it is an enumeration, not a proof
 # over a contract; the packed pixel constructors are template plumbing over the homogeneous constructors proved above).
@@ -120,5 +279,5 @@ int main(int argc, char** argv){ vr::parse(argc, argv); long cases = 0, bad = 0;
 
 UNITS.append(Unit('packed_native', 'C05', '/* complete native enumeration, no extracted body */\n', checks=[Check('packed_pairs', 'none', engine='N', native=NATIVE_PACKED, timeout=900)]))
 
-META = dict(not_covered=['recursive static_* colour-base algorithms (element_recursion<N>), proxy operator= / operator== plumbing, planar references: template recursion with no arithmetic',
+META = dict(not_covered=['recursive static_* colour-base algorithms (element_recursion<N>), proxy operator= / operator== plumbing, template recursion with no arithmetic',
                          'cmyk / devicen layouts have a single provided layout each (identity mapping)', 'packed pixel construction / assignment / == : complete native enumeration (stand-in), not a contract proof; bit-aligned first-bit positions are covered under C08'])
